@@ -13,6 +13,7 @@ from vf.world.cmds import ROOT, World
 from gwf.core import CachedFilesystem, Graph, Target, _norm_path
 
 META = {
+    "solver_reasoned": "selectors only (roles, spellings, working directories); the solver's role is the exhaustive enumeration of feasible role matrices.",
     "real": ["gwf.core._norm_path/_norm_paths/_flatten", "gwf.core.Target.flattened_inputs/flattened_outputs/protected", "gwf.core.Graph.from_targets", "gwf.core.Graph.endpoints",
              "gwf.core.Graph.dfs", "gwf.core.check_for_circular_dependencies", "gwf.plugins.info.info/print_json/print_pretty (bodies)"],
     "stubs": ["os.getcwd (selector) for relative working directories", "VFS for file existence", "stdout captured for `gwf info`"],
